@@ -480,6 +480,112 @@ fn blocked_handler_exit(run: &mut Run, cases: usize) -> anyhow::Result<()> {
     Ok(())
 }
 
+/// The handler of a connection that the remote closed is parked (pause point `rh.exit`, i.e. after it
+/// observed the close and before it deregisters) while a NEW connection to the same peer is registered;
+/// when it resumes it must remove nothing: the entry now belongs to the new connection.
+/// (real time, multi-thread runtime, fabric)
+pub fn stale_exit_race(run: &mut Run, cases: usize) -> anyhow::Result<()> {
+    use std::sync::{Condvar, Mutex as StdMutex};
+    struct Gate {
+        st: StdMutex<(bool, bool, bool)>, // (armed, parked, released)
+        cv: Condvar,
+    }
+    for case in 0..cases {
+        run.mark(&format!("scenario stale_exit_race case {case}"));
+        let seed = run.seed ^ 0x57A1E ^ (case as u64);
+        let rt = tokio::runtime::Builder::new_multi_thread().worker_threads(4).enable_all().build()?;
+        let gate = Arc::new(Gate { st: StdMutex::new((false, false, false)), cv: Condvar::new() });
+        let res: anyhow::Result<serde_json::Value> = rt.block_on({
+            let gate = gate.clone();
+            async move {
+                let fabric = Fabric::new(seed);
+                let s = start_node(&fabric, seed, 1, config_idle(30_000))?;
+                let p = start_node(&fabric, seed, 2, config_idle(30_000))?;
+                let mut slog = NodeLog::new(&s.net);
+                // who dials first decides the origin of the stale connection at S
+                if case % 2 == 0 {
+                    p.net.connect_with_peer_id(s.addr, s.id).await?;
+                } else {
+                    s.net.connect_with_peer_id(p.addr, p.id).await?;
+                }
+                tokio::time::sleep(Duration::from_millis(150)).await;
+                let pid = p.id;
+                {
+                    let gate = gate.clone();
+                    anemo::verif::set_point_callback(Some(Arc::new(move |info: &anemo::verif::PointInfo<'_>| {
+                        if info.name != "rh.exit" || info.peer != Some(pid) {
+                            return;
+                        }
+                        let mut g = gate.st.lock().unwrap();
+                        if !g.0 || g.1 {
+                            return;
+                        }
+                        g.1 = true;
+                        gate.cv.notify_all();
+                        while !g.2 {
+                            g = gate.cv.wait(g).unwrap();
+                        }
+                    })));
+                }
+                gate.st.lock().unwrap().0 = true;
+                // the remote closes the connection: S's handler observes it and walks to `rh.exit`
+                let _ = p.net.disconnect(s.id);
+                let parked = {
+                    let gate = gate.clone();
+                    tokio::task::spawn_blocking(move || {
+                        let g = gate.st.lock().unwrap();
+                        let (g, _) = gate.cv.wait_timeout_while(g, Duration::from_millis(2000), |g| !g.1).unwrap();
+                        g.1
+                    })
+                    .await?
+                };
+                // meanwhile a new connection between the two is established and registered at S
+                let redial = tokio::time::timeout(Duration::from_secs(5), p.net.connect_with_peer_id(s.addr, s.id)).await;
+                tokio::time::sleep(Duration::from_millis(200)).await;
+                let listed_before_release = s.net.peers().contains(&p.id);
+                {
+                    let mut g = gate.st.lock().unwrap();
+                    g.2 = true;
+                    g.0 = false;
+                    gate.cv.notify_all();
+                }
+                tokio::time::sleep(Duration::from_millis(400)).await;
+                anemo::verif::set_point_callback(None);
+                slog.pump();
+                let s_lists = s.net.peers().contains(&p.id);
+                let p_lists = p.net.peers().contains(&s.id);
+                let mk = |id: &str| {
+                    let mut r = anemo::Request::new(bytes::Bytes::from_static(b"x")).with_route("/r");
+                    r.headers_mut().insert("x-id".into(), id.into());
+                    r
+                };
+                let r1 = tokio::time::timeout(Duration::from_secs(3), s.net.rpc(p.id, mk("s2p"))).await;
+                let r2 = tokio::time::timeout(Duration::from_secs(3), p.net.rpc(s.id, mk("p2s"))).await;
+                let evs: Vec<String> = slog.events.iter().map(ev_str).collect();
+                Ok(json!({"parked": parked, "redial_ok": matches!(redial, Ok(Ok(_))), "listed_before_release": listed_before_release, "s_lists_p": s_lists, "p_lists_s": p_lists,
+                          "rpc_s_to_p": matches!(r1, Ok(Ok(_))), "rpc_p_to_s": matches!(r2, Ok(Ok(_))), "events_at_s": evs}))
+            }
+        });
+        anemo::verif::set_point_callback(None);
+        {
+            let mut g = gate.st.lock().unwrap();
+            g.2 = true;
+            gate.cv.notify_all();
+        }
+        rt.shutdown_timeout(Duration::from_secs(3));
+        let o = res?;
+        let evs = o["events_at_s"].as_array().cloned().unwrap_or_default();
+        let tail_ok = evs.last().and_then(|e| e.as_str()).map(|e| e.starts_with("new:")).unwrap_or(false);
+        let ok = o["redial_ok"] == json!(true) && o["s_lists_p"] == json!(true) && o["p_lists_s"] == json!(true) && o["rpc_s_to_p"] == json!(true) && o["rpc_p_to_s"] == json!(true) && tail_ok;
+        if o["parked"] == json!(true) && o["listed_before_release"] == json!(true) && !ok {
+            run.oracle_fail(json!({"kind": "the late exit of a superseded connection's handler removed / disturbed the connection that replaced it", "case": case, "observed": o.clone()}));
+        }
+        run.count("stale-exit-race", if o["parked"] == json!(true) { if ok { "parked-ok" } else { "parked-broken" } } else { "point-not-reached" });
+        run.eval(&format!("staleexit{case}"), true);
+    }
+    Ok(())
+}
+
 pub fn run_c04(run: &mut Run, replay: Option<&std::path::Path>) -> anyhow::Result<()> {
     let seed = run.seed;
     let (nseq, len, nstress) = if run.quick() { (260, 22, 150) } else { (6000, 40, 1500) };
@@ -503,6 +609,7 @@ pub fn run_c04(run: &mut Run, replay: Option<&std::path::Path>) -> anyhow::Resul
     // whole networks: every node's event log must be accepted by the model against its listing
     network_logs(run, if run.quick() { 25 } else { 400 })?;
     blocked_handler_exit(run, if run.quick() { 2 } else { 8 })?;
+    stale_exit_race(run, if run.quick() { 2 } else { 8 })?;
     Ok(())
 }
 
@@ -733,6 +840,7 @@ pub fn run_c05(run: &mut Run, replay: Option<&std::path::Path>) -> anyhow::Resul
     for case in 0..n_net {
         mutual_dial_case(run, seed, case as u64)?;
     }
+    stale_exit_race(run, if run.quick() { 2 } else { 8 })?;
     Ok(())
 }
 
@@ -824,6 +932,13 @@ async fn duo_schedule(run: &mut Run, rng: &mut Rng, na: &RawNode, nb: &RawNode, 
         let pending = (0..2).any(|s| (0..2).any(|c| kept[s][c] && !exited[s][c] && conns[s][c].close_reason().is_some()));
         if !pending && !(okside(0) && okside(1)) {
             run.oracle_fail(json!({"kind": "two-node schedule did not converge on the connection dialled by the greater identity", "ops": ops.clone(), "schedule": idx}));
+        }
+        // "...and drop the other": the connection that lost must be closed at both ends, not merely unlisted
+        let loser = 1 - winner;
+        for sd in 0..2 {
+            if offered[sd][loser] && conns[sd][loser].close_reason().is_none() {
+                run.oracle_fail(json!({"kind": "the connection that lost the tie-break is still open (two live connections between the same pair)", "ops": ops.clone(), "schedule": idx, "side": if sd == 0 { "A" } else { "B" }}));
+            }
         }
         let q = format!("quiet={} converged={} winner={}", !pending, okside(0) && okside(1), winner + 1);
         run.op("duo.state".into(), q, true);
